@@ -241,8 +241,7 @@ Definition cmd_window (t : term) (p : pst) : outcome :=        (* CSI .. t, stat
   end.
 (* BitFont::from_ansi_font_page knows the slots of the fonts! table in fonts.rs; anything else is an Err.
    The font table itself is not modelled (slot 0 is always present) *)
-Definition font_slot (n : Z) : bool :=
-  ((0 <=? n) && (n <=? 3)) || ((5 <=? n) && (n <=? 9)) || ((12 <=? n) && (n <=? 16)) || ((19 <=? n) && (n <=? 29)) || ((32 <=? n) && (n <=? 42)).
+Definition font_slot (n : Z) : bool := (0 <=? n) && (n <=? 42).     (* slots 0..=42 of the fonts! table (checked by stage C) *)
 Definition cmd_font_selection (t : term) (p : pst) : outcome :=
   match nums p with
   | [_; nr] => if font_slot nr then ok t (dflt p) else err t (dflt p)
